@@ -36,6 +36,21 @@ struct HistOut {
     chunks_opened: u64,
     violations: Vec<Violation>,
     sample: Option<serde_json::Value>,
+    /// every metadata document version the backend received, in journal order
+    docs: Vec<DocSeen>,
+    /// scripted entropy answers still queued when the history ended
+    entropy_left: usize,
+}
+
+/// The nonces one metadata document version carries.
+#[derive(Clone, Debug, PartialEq, Eq)]
+struct DocSeen {
+    path: String,
+    /// base nonce `n` of the chunks
+    n: Vec<u8>,
+    /// seal nonce `an`
+    an: Option<Vec<u8>>,
+    chunks: u64,
 }
 
 fn plaintexts(hist: &[Op]) -> Vec<bytes::Bytes> {
@@ -68,7 +83,18 @@ fn bytes_of(v: Option<cbor2::Value>) -> Option<Vec<u8>> {
 }
 
 fn run_history(wrap: Wrap, hist: &[Op], clock: u64, want_sample: bool) -> HistOut {
+    run_history_scripted(wrap, hist, clock, want_sample, &[])
+}
+
+/// `script`: answers for the 12-byte entropy draws of the store, in order
+/// (hook `anda_db_utils::verif::push_entropy`; an exhausted or empty script
+/// means the real generator).
+fn run_history_scripted(wrap: Wrap, hist: &[Op], clock: u64, want_sample: bool, script: &[Vec<u8>]) -> HistOut {
     anda_db_utils::verif::set_clock(Some((clock, 1000)));
+    anda_db_utils::verif::clear_entropy();
+    for e in script {
+        anda_db_utils::verif::push_entropy(e.clone());
+    }
     let mut out = HistOut::default();
     let (ctl_store, ctl) = CtlStore::new();
     let inner: Arc<dyn ObjectStore> = ctl_store.clone();
@@ -79,6 +105,10 @@ fn run_history(wrap: Wrap, hist: &[Op], clock: u64, want_sample: bool) -> HistOu
             apply_tracked(store.as_ref(), &mut book, op).await;
         }
     });
+    while anda_db_utils::verif::take_entropy(12).is_some() {
+        out.entropy_left += 1;
+    }
+    anda_db_utils::verif::clear_entropy();
     let cipher = harness_cipher();
     let plains = plaintexts(hist);
     // every 8-byte window of every plaintext, built once per history
@@ -143,6 +173,12 @@ fn run_history(wrap: Wrap, hist: &[Op], clock: u64, want_sample: bool) -> HistOu
                 out.violations.push(viol("metadata-without-nonce", format!("{path} carries no base nonce")));
                 continue;
             };
+            out.docs.push(DocSeen {
+                path: path.clone(),
+                n: n.clone(),
+                an: bytes_of(get_field(&data, "an")),
+                chunks: tags.len() as u64,
+            });
             // the seal (GMAC over path + fields) runs under the same key: its
             // nonce joins the same set, identified by what it authenticates
             if let Some(an) = bytes_of(get_field(&data, "an"))
@@ -241,6 +277,241 @@ fn run_history(wrap: Wrap, hist: &[Op], clock: u64, want_sample: bool) -> HistOu
     out
 }
 
+// ---------------------------------------------------------------------------
+// entropy use: which bits of every 96-bit draw reach which nonce
+
+#[derive(Default)]
+struct EntropyOut {
+    runs: u64,
+    draws_scripted: u64,
+    nonces_determined: u64,
+    bit_flips: u64,
+    disjointness_checks: u64,
+    violations: Vec<Violation>,
+    table: Vec<serde_json::Value>,
+}
+
+/// The writers that draw a nonce, as one-commit-per-operation histories over
+/// chunk size 16: single-chunk and three-chunk objects.
+fn entropy_writers() -> Vec<(&'static str, Vec<Op>)> {
+    let put = |k: u8, size: u32, mode: Mode| Op::Put { key: k, size, var: 7, mode };
+    vec![
+        ("put-1-chunk", vec![put(0, 9, Mode::Overwrite)]),
+        ("put-3-chunks", vec![put(0, 35, Mode::Overwrite)]),
+        ("put-create-then-update", vec![put(0, 9, Mode::Create), Op::Put { key: 0, size: 35, var: 8, mode: Mode::Update(vstore::ops::Tok::Latest) }]),
+        ("multipart-1-chunk", vec![Op::Multi { key: 0, parts: vec![4, 5], var: 7, abort: false }]),
+        ("multipart-3-chunks", vec![Op::Multi { key: 0, parts: vec![15, 2, 18], var: 7, abort: false }]),
+        ("put-then-copy", vec![put(2, 35, Mode::Overwrite), Op::Copy { from: 2, to: 0, create: false }]),
+        ("put-then-rename", vec![put(2, 35, Mode::Overwrite), Op::Rename { from: 2, to: 0, create: true }]),
+    ]
+}
+
+/// Scripted answer of draw `j` under filler `f`: f = 0 low values (no carry
+/// anywhere), f = 1 counter bytes all ones (the chunk counter wraps inside
+/// the object), draws distinct from one another in the salt.
+fn filler(f: u8, j: usize) -> Vec<u8> {
+    (0..12usize)
+        .map(|k| match f {
+            0 => ((0x11 * (j + 1) + 7 * k) & 0x7f) as u8,
+            _ => if k == 0 { 0xf0 + j as u8 } else { 0xff },
+        })
+        .collect()
+}
+
+fn chunk_nonce_set(d: &DocSeen) -> Vec<[u8; 12]> {
+    if d.n.len() != 12 {
+        return vec![];
+    }
+    (0..d.chunks).map(|i| chunk_nonce(&d.n, i)).collect()
+}
+
+/// Exhaustive entropy-use enumeration. For every nonce-drawing writer the
+/// 12-byte draws it makes are scripted (hook: `push_entropy`); the nonces are
+/// read off the metadata documents the backend received (every chunk was
+/// opened under base + index by `run_history`):
+///  - control: the same script twice gives the same nonces — a nonce that
+///    still varies does not come from 96-bit draws (the assumption "the
+///    generator does not repeat 96-bit values" would not cover it);
+///  - every single bit of every draw, flipped alone, changes some nonce, and
+///    every nonce is reached by at least 96 script bits;
+///  - two commits whose draws differ only in the top bit of one byte (far
+///    enough apart that the counter ranges of three-chunk objects cannot
+///    overlap by plain arithmetic) have disjoint chunk-nonce sets.
+fn entropy_phase() -> EntropyOut {
+    const CLOCK: u64 = 1_500_000_000_000;
+    const PROBE: usize = 8;
+    let wrap = Wrap::Enc(16);
+    let mut out = EntropyOut::default();
+    let mut any_consumed = false;
+    for (name, hist) in entropy_writers() {
+        let viol = |what: String, text: String| Violation {
+            signature: format!("C09/leak/entropy/{what}"),
+            summary: format!(
+                "{}: [{}] with scripted entropy: {}",
+                wrap.label(),
+                hist.iter().map(|o| o.short()).collect::<Vec<_>>().join("; "),
+                text
+            ),
+            replay: json!({"entropy": name}),
+        };
+        for f in 0..2u8 {
+            // how many 12-byte draws does the history make?
+            let probe: Vec<Vec<u8>> = (0..PROBE).map(|j| filler(f, j)).collect();
+            let r = run_history_scripted(wrap, &hist, CLOCK, false, &probe);
+            out.runs += 1;
+            let draws = PROBE - r.entropy_left;
+            out.draws_scripted += draws as u64;
+            any_consumed |= draws > 0;
+            for v in r.violations {
+                out.violations.push(v);
+            }
+            let script: Vec<Vec<u8>> = (0..draws).map(|j| filler(f, j)).collect();
+            let base = run_history_scripted(wrap, &hist, CLOCK, false, &script);
+            let again = run_history_scripted(wrap, &hist, CLOCK, false, &script);
+            out.runs += 2;
+            // nonce slots: (document index, false = chunk base nonce / true = seal nonce)
+            let mut slots: Vec<(usize, bool)> = Vec::new();
+            let mut undetermined: Vec<(usize, bool)> = Vec::new();
+            if base.docs.len() != hist.len() || again.docs.len() != hist.len() {
+                vcore::report::machinery(&format!(
+                    "entropy phase: history {name} wrote {} metadata documents, expected one per operation ({})",
+                    base.docs.len(),
+                    hist.len()
+                ));
+            }
+            for (i, op) in hist.iter().enumerate() {
+                let (a, b) = (&base.docs[i], &again.docs[i]);
+                // a copy carries the source's ciphertext and base nonce over verbatim: not a draw of its own
+                let own_chunks = matches!(op, Op::Put { .. } | Op::Multi { .. });
+                for seal in [false, true] {
+                    if !seal && !own_chunks {
+                        continue;
+                    }
+                    let (x, y) = if seal { (a.an.clone(), b.an.clone()) } else { (Some(a.n.clone()), Some(b.n.clone())) };
+                    let what = if seal { "seal-nonce" } else { "chunk-nonce" };
+                    if x.is_none() || x.as_ref().map(|v| v.len()) != Some(12) {
+                        out.violations.push(viol(
+                            format!("{}/{what}/missing", op.kind()),
+                            format!("{} written by {} carries no 12-byte {what}", a.path, op.short()),
+                        ));
+                        continue;
+                    }
+                    if x != y {
+                        undetermined.push((i, seal));
+                        out.violations.push(viol(
+                            format!("{}/{what}/not-determined-by-96-bit-draws", op.kind()),
+                            format!(
+                                "the {what} of {} written by {} differs between two runs in which every 12-byte entropy draw was answered identically ({:02x?} vs {:02x?}; {draws} draws of 12 bytes were consumed): it is not (only) a function of 96-bit draws, so uniqueness does not follow from a generator that never repeats a 96-bit value",
+                                a.path,
+                                op.short(),
+                                x.unwrap_or_default(),
+                                y.unwrap_or_default()
+                            ),
+                        ));
+                    } else {
+                        slots.push((i, seal));
+                        out.nonces_determined += 1;
+                    }
+                }
+            }
+            let slot_val = |r: &HistOut, s: &(usize, bool)| -> Option<Vec<u8>> {
+                let d = r.docs.get(s.0)?;
+                if s.1 { d.an.clone() } else { Some(d.n.clone()) }
+            };
+            let mut reach: Vec<u32> = vec![0; slots.len()];
+            for d in 0..draws {
+                for bit in 0..96usize {
+                    let mut sc = script.clone();
+                    sc[d][bit / 8] ^= 1 << (bit % 8);
+                    let r = run_history_scripted(wrap, &hist, CLOCK, false, &sc);
+                    out.runs += 1;
+                    out.bit_flips += 1;
+                    if r.docs.len() != hist.len() {
+                        continue;
+                    }
+                    let mut reached_any = false;
+                    for (si, s) in slots.iter().enumerate() {
+                        if slot_val(&r, s) != slot_val(&base, s) {
+                            reach[si] += 1;
+                            reached_any = true;
+                        }
+                    }
+                    if !reached_any && undetermined.is_empty() {
+                        out.violations.push(viol(
+                            "draw-bit-reaches-no-nonce".into(),
+                            format!("flipping bit {} of byte {} of entropy draw {d} (of {draws}) changed no chunk or seal nonce of any document written", bit % 8, bit / 8),
+                        ));
+                    }
+                    // far apart by plain arithmetic: the chunk-nonce sets must not meet
+                    if bit % 8 == 7 {
+                        for s in slots.iter().filter(|s| !s.1) {
+                            if slot_val(&r, s) == slot_val(&base, s) {
+                                continue; // this draw does not feed this object
+                            }
+                            out.disjointness_checks += 1;
+                            let (a, b) = (chunk_nonce_set(&base.docs[s.0]), chunk_nonce_set(&r.docs[s.0]));
+                            if a.iter().any(|x| b.contains(x)) {
+                                out.violations.push(viol(
+                                    format!("{}/chunk-nonce/sets-of-two-commits-overlap", hist[s.0].kind()),
+                                    format!(
+                                        "two commits of {} chunks whose draws differ only in the top bit of byte {} share a chunk nonce (base nonces {:02x?} and {:02x?})",
+                                        base.docs[s.0].chunks,
+                                        bit / 8,
+                                        base.docs[s.0].n,
+                                        r.docs[s.0].n
+                                    ),
+                                ));
+                            }
+                        }
+                    }
+                    for v in r.violations {
+                        out.violations.push(v);
+                    }
+                }
+            }
+            for (si, s) in slots.iter().enumerate() {
+                let what = if s.1 { "seal-nonce" } else { "chunk-nonce" };
+                if reach[si] < 96 {
+                    out.violations.push(viol(
+                        format!("{}/{what}/fewer-than-96-entropy-bits", hist[s.0].kind()),
+                        format!(
+                            "only {} of the {} scripted entropy bits change the {what} of {} written by {}",
+                            reach[si],
+                            draws * 96,
+                            base.docs[s.0].path,
+                            hist[s.0].short()
+                        ),
+                    ));
+                }
+            }
+            out.table.push(json!({
+                "writer": name,
+                "filler": if f == 0 { "low bytes" } else { "counter all ones (wraps inside the object)" },
+                "draws_of_12_bytes": draws,
+                "nonces": slots.iter().enumerate().map(|(si, s)| json!({
+                    "document": base.docs[s.0].path,
+                    "written_by": hist[s.0].short(),
+                    "nonce": if s.1 { "seal" } else { "chunk base" },
+                    "script_bits_that_change_it": reach[si],
+                })).collect::<Vec<_>>(),
+                "nonces_not_determined_by_the_script": undetermined.len(),
+            }));
+            for v in base.violations.into_iter().chain(again.violations) {
+                out.violations.push(v);
+            }
+        }
+    }
+    if !any_consumed {
+        vcore::report::machinery("entropy phase: no scripted 12-byte draw was consumed by any writer (hook `push_entropy` not compiled in?)");
+    }
+    if out.nonces_determined == 0 {
+        vcore::report::machinery("entropy phase: no nonce followed the scripted draws (the control case never held; the hook is not live)");
+    }
+    let mut sigs = std::collections::HashSet::new();
+    out.violations.retain(|v| sigs.insert(v.signature.clone()));
+    out
+}
+
 fn leak_alphabet(cs: u64) -> Vec<Op> {
     let mut full = alphabet(cs, true);
     // payloads long enough to have 8-byte windows at every chunk size
@@ -258,6 +529,16 @@ fn main() {
     if let Some(file) = run.replay_file.clone() {
         let doc: serde_json::Value = serde_json::from_slice(&std::fs::read(&file).expect("read replay")).expect("json");
         let r = &doc["replay"];
+        if r.get("entropy").is_some() {
+            // cheap: the whole entropy-use enumeration is re-run
+            let e = entropy_phase();
+            run.add("evaluations", e.runs);
+            for v in e.violations {
+                println!("  -> {}", v.summary);
+                run.violation(v);
+            }
+            run.finish();
+        }
         let wrap: Wrap = serde_json::from_value(r["wrap"].clone()).expect("wrap");
         let hist: Vec<Op> = serde_json::from_value(r["history"].clone()).expect("history");
         let out = run_history(wrap, &hist, r["clock"].as_u64().unwrap_or(1_700_000_000_000), true);
@@ -400,6 +681,21 @@ fn main() {
         run.cap_hit("time budget: many-chunk objects not run");
     }
 
+    // entropy use of every nonce-drawing writer
+    {
+        let e = entropy_phase();
+        run.add("evaluations", e.runs);
+        run.add("entropy_scripted_runs", e.runs);
+        run.add("entropy_draws_scripted", e.draws_scripted);
+        run.add("entropy_nonces_following_the_script", e.nonces_determined);
+        run.add("entropy_single_bit_flips", e.bit_flips);
+        run.add("entropy_far_apart_pairs_checked_disjoint", e.disjointness_checks);
+        run.set("entropy_use", json!(e.table));
+        for v in e.violations {
+            run.violation(v);
+        }
+    }
+
     // one set for the whole run: a nonce may recur only for the very same
     // chunk (a copy carries ciphertext, nonce and tags over verbatim)
     all_nonces.sort_unstable();
@@ -438,9 +734,10 @@ fn main() {
     run.rule(
         "histories = CORE* . FULL+ over keys {a, a/b, c} (C07's alphabet plus 8/24/40-byte puts and a 25-byte three-part upload), EncryptedStore over a journalling backend; \
          every object version the backend ever received is scanned for every 8-byte window of every plaintext of the history; every metadata document written is decoded and the nonce of each chunk re-derived as n[0..4] || LE64(LE64(n[4..12]) + index), and the chunk is opened with the harness' own AES-256-GCM instance under that nonce and the documented chunk AAD (so the derived nonce is the one really used) and must yield bytes the history wrote at that offset; \
-         the seal nonce `an` of every metadata document version joins the same set (identified by path + document without its tag); one nonce set for the whole run (one encryption key), a repeat is a violation unless it is the very same message (the same ciphertext chunk and tag, as in copies); plus 14 single objects of 255 / 256 / 257 / 65,535 / 65,536 / 65,537 / 70,000 chunks at chunk size 1 (put, and multipart split inside the object) for the width of the chunk counter; distinct = distinct chunk nonces (capped at 200000 in the evidence counter)",
+         the seal nonce `an` of every metadata document version joins the same set (identified by path + document without its tag); one nonce set for the whole run (one encryption key), a repeat is a violation unless it is the very same message (the same ciphertext chunk and tag, as in copies); plus 14 single objects of 255 / 256 / 257 / 65,535 / 65,536 / 65,537 / 70,000 chunks at chunk size 1 (put, and multipart split inside the object) for the width of the chunk counter; distinct = distinct chunk nonces (capped at 200000 in the evidence counter); \
+         entropy use: for every nonce-drawing writer (put in Overwrite / Create / Update mode, multipart upload, and the seal of put / multipart / copy / rename; one- and three-chunk objects at chunk size 16) every 12-byte entropy draw is scripted, under two fillers (low bytes; counter bytes all ones so the chunk counter wraps inside the object): the same script twice must give the same chunk base nonce and seal nonce in every metadata document the backend received (a nonce that still varies is not a function of 96-bit draws), each of the 96 bits of each draw flipped alone must change some nonce, every nonce must be changed by at least 96 script bits, and two commits whose draws differ only in the top bit of one byte must have disjoint chunk-nonce sets",
     );
-    run.assume("the OS random generator behind rand::rng() does not repeat 96-bit values (real collision probability is not checked)");
+    run.assume("the OS random generator behind rand::rng() does not repeat 96-bit values (real collision probability is not checked); the entropy-use enumeration shows that every chunk and seal nonce is a function of one full 96-bit draw, which is what makes that assumption sufficient");
     run.assume("plaintexts are high-entropy (an accidental 8-byte match with ciphertext has probability 2^-64 per position)");
     run.finish();
 }
